@@ -118,11 +118,13 @@ func execObs(c Case, obs *[]string) *ev.Result {
 	defer w.Close()
 	w.Obs = obs
 	for i, op := range c.Ops {
+		var before []string
 		if op.K == "gc" {
 			// all reads immediately before the collector run as well (they are repeated after it)
 			if !w.ReadBack(fmt.Sprintf("read-back before collector step %d", i)) {
 				break
 			}
+			before = append(before, (*obs)[len(*obs)-w.lastReadBackLen:]...)
 			*obs = (*obs)[:len(*obs)-w.lastReadBackLen]
 		}
 		if !w.Apply(i, op) {
@@ -135,6 +137,22 @@ func execObs(c Case, obs *[]string) *ev.Result {
 			break
 		}
 		if op.K == "gc" {
+			// the property itself, with no model in between: nothing happened but a collector run, so every
+			// actor reads exactly what it read immediately before it (also where the model leaves a choice)
+			after := (*obs)[len(*obs)-w.lastReadBackLen:]
+			if len(after) != len(before) {
+				r.Failf("collector step %d: %d observations before the run, %d after", i, len(before), len(after))
+				break
+			}
+			for j := range after {
+				if after[j] != before[j] {
+					r.Failf("collector step %d changed what a reader sees: before the run %q, after it %q", i, before[j], after[j])
+					break
+				}
+			}
+			if r.Fail != "" {
+				break
+			}
 			*obs = (*obs)[:len(*obs)-w.lastReadBackLen]
 		}
 	}
